@@ -444,6 +444,9 @@ declarations:
     - decl: double area(double scale = 1.0) const
     - decl: void setName(const std::string &name)
   - decl: int count(int n)
+  - decl: namespace detail
+    declarations:
+    - decl: int depth(int n)
 - decl: const std::string getName()
 - decl: enum Color { RED, BLUE }
 """,
@@ -743,10 +746,14 @@ class DeclSplicerHarness(object):
                         found = body
                         break
                 if found is None:
-                    if g == "c" or (g == "f" and f._generated != "arg_to_buffer" and f._PTR_F_C_index is None):
-                        if g == "c":
-                            J.valid(False, "%s (declared with a splicer) has no body block in the C output" % label)
-                            break
+                    if g == "c":
+                        J.valid(False, "%s (declared with a splicer) has no body block in the C output" % label)
+                        break
+                    if g == "f" and not f._generated and f._PTR_F_C_index is None:
+                        # a declaration that carries an 'f' splicer gets a Fortran procedure to hold it, whether or not it
+                        # would need one otherwise
+                        J.valid(False, "%s (declared with an 'f' splicer) has no body block in the Fortran output" % label)
+                        break
                     continue
                 nchecked += 1
                 if not block_equiv(J, [chars_of(self.user[key])], found, "%s: body of the declaration's '%s' splicer" % (label, key)):
